@@ -40,6 +40,14 @@ Verdict evalAccepted(Ctx& c, const Gamma& G, const std::string& text, rl::Syntax
     const auto& d = std::get<ob::StructuredData>(*res);
     long budget = 300000; Val v;
     try { v = fromLibData(d, &budget); } catch (const Budget&) { c.count("readback-budget"); return pbt::pass(); }
+    // the any-type R0 is the element type of the empty set literal: nothing can sit at a position typed R0
+    std::function<bool(const Val&, const Ty&)> inhabitsAny = [&](const Val& x, const Ty& t) -> bool {
+      if (t.isAny()) return true;
+      if (t.k == Ty::TUPLE && x.k == Val::TUPLE && x.items.size() == t.comps.size()) { for (size_t i = 0; i < x.items.size(); ++i) if (inhabitsAny(x.items[i], t.comps[i])) return true; return false; }
+      if (t.k == Ty::SET && x.k == Val::SET) { for (auto& e : x.items) if (inhabitsAny(e, t.elem())) return true; return false; }
+      return false;
+    };
+    CHECK(!inhabitsAny(v, reported), "any-type-inhabited", where + " evaluated to " + v.str() + " although the reported type " + reported.str() + " says that position holds an element of the empty set");
     CHECK(hasTypeDeep(v, reported), "structure-mismatch", where + " evaluated to " + v.str() + " which does not have the reported structure");
     CHECK(ob::CheckCompatible(d, std::get<rl::Typification>(libType)) || reported.mentions("R0"), "check-compatible", where + " CheckCompatible(value, reported type) is false for " + v.str());
   }
